@@ -206,6 +206,9 @@ class Attribute(_BaseAttribute):
     def __getitem__(self, key):
         if key in self._data:
             return self._data[key]
+        if self.elemsize>1:
+            # a fresh vector: the default object must not be shared between all unset entries
+            return Vec(np.copy(self.default_value))
         return self.default_value
 
     def __setitem__(self, key, value):
